@@ -318,16 +318,29 @@ func dischargeAll(obls []*Obligation, opt *solveOpts) {
 	}
 	close(ch)
 	wg.Wait()
-	// obligations that ran out of time while all workers were busy get a second, sequential attempt
-	// with three times the time: a slow but stable proof must not become an alarm under load
+	// obligations that ran out of time while all workers were busy get further, sequential attempts with
+	// three and then nine times the time: a slow but stable proof must not become an alarm under load
+	// (a candidate model of the relaxed query kept after a timeout counts as a timeout here)
 	if !opt.noRetry {
-		ropt := *opt
-		ropt.timeout = opt.timeout * 3
-		ropt.noRetry = true
-		for i, o := range obls {
-			if o.Verdict == "timeout" && !o.Cover {
-				o.Verdict, o.Raw, o.Solver, o.Relaxed = "", "", "", false
-				discharge(o, &ropt, i)
+		for _, factor := range []float64{3, 9} {
+			ropt := *opt
+			ropt.timeout = opt.timeout * factor
+			ropt.fast = opt.fast * factor
+			ropt.noRetry = true
+			pendingN := 0
+			for _, o := range obls {
+				if (o.Verdict == "timeout" || (o.TimedOut && o.Verdict == "sat-relaxed")) && !o.Cover {
+					pendingN++
+				}
+			}
+			if factor > 3 && pendingN > 3 {
+				break // many open obligations are a broken proof, not load: do not spend minutes on them
+			}
+			for i, o := range obls {
+				if (o.Verdict == "timeout" || (o.TimedOut && o.Verdict == "sat-relaxed")) && !o.Cover {
+					o.Verdict, o.Raw, o.Solver, o.Relaxed, o.TimedOut = "", "", "", false, false
+					discharge(o, &ropt, i)
+				}
 			}
 		}
 	}
